@@ -28,6 +28,7 @@
 #include <boost/iterator/iterator_facade.hpp>
 #include <boost/iterator/transform_iterator.hpp>
 
+#include "galois/substrate/Verif.h"
 #include "galois/Bag.h"
 #include "galois/config.h"
 #include "galois/gIO.h"
@@ -1445,6 +1446,7 @@ void Executor<OptionsTy>::go() {
       if (innerDone.get())
         break;
 
+      GALOIS_VERIF_POINT(DET_ROUND);
       this->calculateWindow(true);
 
       barrier.wait();
@@ -1474,6 +1476,7 @@ void Executor<OptionsTy>::go() {
       // (1) is erroneous
       hasNewWork.get() = false;
     } else {
+      GALOIS_VERIF_POINT(DET_ROUND);
       this->calculateWindow(false);
 
       this->pushNextWindow(tld.wlnext, local.nextWindow());
